@@ -11,9 +11,10 @@ def run(chk, tier):
     import gtab
     # generator tables: primitive name -> C++ type / size / wrapper class (value_type and signedness of what getters return)
     gtab.check(chk, sbeppc_facts(), which=("keys", "sizes", "wrapper"))
-    plan = [("vprims_le", "c++17"), ("vprims_be", "c++17"), ("vprims_be", "c++20")]
+    # both byte orders under both build paths (memcpy + byteswap before C++20, bit_cast + copy / reverse_copy from C++20)
+    plan = [("vprims_le", "c++17"), ("vprims_be", "c++17"), ("vprims_be", "c++20"), ("vprims_le", "c++20")]
     if tier == "thorough":
-        plan += [("vprims_le", "c++20"), ("vprims_be", "c++11"), ("vprims_be", "c++14"), ("vdims", "c++17"), ("vheaders", "c++17"),
+        plan += [("vprims_be", "c++11"), ("vprims_be", "c++14"), ("vdims", "c++17"), ("vheaders", "c++17"),
                  ("test_schema", "c++17"), ("big_endian_schema", "c++17")]
     for name, std in plan:
         lib = lib_for(name, std)
